@@ -513,7 +513,6 @@ class UCSReplication(MessagePassingComputation):
                     self.discovery.subscribe_computation(
                         n, self._on_neighbor_found, one_shot=True
                     )
-                return
             self.logger.warning(
                 f"Cannot replicate computations {computations} : no neighbor"
             )
